@@ -4168,6 +4168,13 @@ class Graph(_protocols.GraphProtocol, Sequence[Node], _display.PrettyPrintable):
         if num_of_sorted_nodes != len(nodes):
             raise ValueError("Graph contains a cycle, topological sort is not possible.")
 
+        # Check every graph of the nest before re-linking any of them, so that a node that cannot
+        # be re-added (e.g. an unnamed output whose backing tensor refuses a name) rejects the
+        # whole sort instead of leaving some graphs re-ordered.
+        for graph, sorted_nodes in sorted_nodes_by_graph.items():
+            for node in sorted_nodes:
+                graph._check_node_can_be_added(node)  # pylint: disable=protected-access
+
         # 5. Reverse: Reverse the sorted nodes of each subgraph to get the topological order.
         for graph, sorted_nodes in sorted_nodes_by_graph.items():
             # The graph container ensures all the nodes are unique so we can safely extend
